@@ -30,7 +30,19 @@ SHRINK_WALL = 45.0  # seconds of minimisation per reported violation
 SHRINK_TOTAL = 150.0  # ... and per check
 
 
-def _worker_init() -> None:
+def _worker_init(counter: Any = None) -> None:
+    # one CPU per worker: the threads of a run pass a baton (only one ever runs), and keeping them
+    # on one CPU makes their wake-ups and the interpreter's frequent mmap/munmap of frame-stack
+    # chunks local (no cross-CPU TLB shootdowns) -- about 20 % more runs per hour in this VM
+    if counter is not None and os.environ.get("VERIF_NO_PIN") != "1":
+        try:
+            with counter.get_lock():
+                ix = counter.value
+                counter.value += 1
+            cpus = sorted(os.sched_getaffinity(0))
+            os.sched_setaffinity(0, {cpus[ix % len(cpus)]})
+        except (AttributeError, OSError, ValueError):
+            pass
     kit.load_celpy()
 
 
@@ -114,9 +126,11 @@ def run_check(modname: str, tier: str, max_runs: int, chunk: int = 8,
     digest_by_seed: Dict[int, str] = {}
     stopped_early = False
 
+    if hasattr(mod, "prepare"):
+        mod.prepare()
     ctx = get_context("fork")
     with ProcessPoolExecutor(max_workers=kit.CPUS, mp_context=ctx,
-                             initializer=_worker_init) as pool:
+                             initializer=_worker_init, initargs=(ctx.Value("i", 0),)) as pool:
         pending = set()
         it = iter(chunks)
         exhausted = False
